@@ -360,6 +360,36 @@ def reference(c, dic=None, method="auto"):
     return fn(topo.post, topo.root, bl, tv, Q, pi, rates, probs)[0]
 
 
+def reference_slack(c, dic=None, eta=4.4e-16):
+    """conditioning of the problem: change of the reference value when every transition matrix is perturbed by
+    an absolute error of two ulps in the symmetrised basis, P_ij += eta * sqrt(pi_j / pi_i) (i != j; also for
+    zero-length branches and the invariant category, where P should be the identity).  Any double-precision
+    evaluation of P(t) through the symmetric eigendecomposition carries at least this backward error; for
+    well-conditioned cases the slack is ~1e-15, for columns whose likelihood is itself ~1e-15 (very short
+    branches, frequencies or rates spanning three orders of magnitude) it can exceed the 1e-9 of the property."""
+    topo, names, dates, bl, h = tree_geometry(c)
+    _, info = datatype_spec(c)
+    m = c["model"]
+    if m["name"] in ("LG", "WAG", "MG94"):
+        sm = dic["subst"]
+        pi = sm.frequencies.detach().numpy().astype(float).reshape(-1)
+        Q = OL.normalise(sm.q().detach().numpy().astype(float).reshape(len(pi), len(pi)), pi)
+    else:
+        Q, pi = OL.q_model(m)
+    rates, probs = site_categories(c["site"])
+    tv = tip_vectors(c, info)
+    S = np.sqrt(pi[None, :] / pi[:, None]) if m["name"] != "GeneralNonSym" else np.ones((len(pi), len(pi)))
+    np.fill_diagonal(S, 0.0)
+    base = OL.prune_loglik(topo.post, topo.root, bl, tv, Q, pi, rates, probs)[0]
+    old = OL._pmats
+    OL._pmats = lambda Q_, bl_, rate: {v: P + eta * S for v, P in old(Q_, bl_, rate).items()}
+    try:
+        pert = OL.prune_loglik(topo.post, topo.root, bl, tv, Q, pi, rates, probs)[0]
+    finally:
+        OL._pmats = old
+    return abs(pert - base)
+
+
 def varying_column(c):
     plain = {"nucleotide": "ACGTUacgtu", "aa": AA_PLAIN + AA_PLAIN.lower()}.get(c["family"])
     for col in c["cols"]:
